@@ -363,6 +363,11 @@ pub mod verif_hooks {
         }
     }
 
+    /// NetworkTopologyStrategy replicas of a single-datacenter ring (node i owns token 100*(i+1), rack `racks[i]`).
+    pub fn nts_walk(racks: &[Option<String>], token: i64, rf: usize) -> Vec<usize> {
+        crate::routing::locator::verif_replication_info::nts_walk(racks, token, rf)
+    }
+
     /// All tables' tablets (`TabletsInfo`); tablets carry unresolved replicas iff `unresolved`.
     pub struct TabletsOfTables(tablets::TabletsInfo);
     impl TabletsOfTables {
